@@ -663,6 +663,14 @@ func (vc *VC) enterLoop(li *loopInfo, ins []*State, preds []*ssa.BasicBlock) *St
 	for k, v := range vc.strLits {
 		snapLits[k] = v
 	}
+	snapEntryHeap := map[string]Term{}
+	for k, v := range vc.entry.heap {
+		snapEntryHeap[k] = v
+	}
+	snapMergedHeap := map[string]Term{}
+	for k, v := range merged.heap {
+		snapMergedHeap[k] = v
+	}
 	savedTouched, savedTop, savedDry := vc.touched, vc.topHit, vc.dry
 	vc.touched, vc.topHit, vc.dry = map[string]bool{}, false, true
 	dryState := merged.clone()
@@ -672,6 +680,8 @@ func (vc *VC) enterLoop(li *loopInfo, ins []*State, preds []*ssa.BasicBlock) *St
 	vc.touched, vc.topHit, vc.dry = savedTouched, savedTop, savedDry
 	vc.decls, vc.axioms, vc.obls = vc.decls[:snapDecl], vc.axioms[:snapAx], vc.obls[:snapObl]
 	vc.declared = snapDeclared
+	vc.entry.heap = snapEntryHeap
+	merged.heap = snapMergedHeap
 	vc.unsupported = vc.unsupported[:snapUnsup]
 	vc.ordinals = snapOrd
 	vc.strLits = snapLits
